@@ -758,7 +758,7 @@ def run(ctx):
     nseq = ctx.pick({"quick": 60, "thorough": 1500})
     length = ctx.pick({"quick": 12, "thorough": 25})
     for k in range(nseq):
-        if not ctx.budget_ok():
+        if k >= 3 and not ctx.budget_ok():
             break
         ol_sequence(env, variants[k % len(variants)], length, ctx.rng)
     env.dispose()
@@ -787,7 +787,7 @@ def run(ctx):
     ctx.count("exhaustive_proxy_done")
     flavours = ("PL", "PP", "PO", "PS", "PD")
     for k in range(nseq):
-        if not ctx.budget_ok():
+        if k >= 5 and not ctx.budget_ok():
             break
         px_sequence(px, flavours[k % len(flavours)], length, ctx.rng)
     px.dispose()
